@@ -223,7 +223,11 @@ func (s *Script) AppendOpcodes(oo ...uint8) error {
 }
 
 // String implements the stringer interface and returns the hex string of script.
+// A nil script, such as the unlocking script of an unsigned input, is the empty string.
 func (s *Script) String() string {
+	if s == nil {
+		return ""
+	}
 	return hex.EncodeToString(*s)
 }
 
